@@ -179,7 +179,7 @@ class SchedTimeout(Exception): pass
 class Worker(object):
     def __init__(self, wid, stack):
         self.id = wid; self.stack = list(stack); self.done = False; self.blocked = None; self.noswitch = 0
-        self.gate = None; self.gen = None; self.spec = None; self.initial_park = False; self.thread = None
+        self.gate = None; self.gen = None; self.spec = None; self.initial_park = False; self.thread = None; self.started = False
 
 
 def top(w):
@@ -230,7 +230,7 @@ class Runner(object):
 
     # -- scheduling ---------------------------------------------------------------------------------
     def pick(self):
-        c = [w for w in self.workers if not w.done and not (w.blocked is not None and not w.blocked.done)]
+        c = [w for w in self.workers if w.started and not w.done and not (w.blocked is not None and not w.blocked.done)]
         return self.rng.choice(c) if c else None
 
     async def sw(self, w, force=False):
@@ -298,6 +298,7 @@ class Runner(object):
         return self.local_tracer
 
     def t_spawn(self, w):
+        w.started = True
         w.thread = threading.Thread(target=self.t_main, args=(w,), daemon=True)
         w.thread.start()
 
@@ -307,7 +308,7 @@ class Runner(object):
             self.turn = w0; self.cur = w0
             self.cond.notify_all()
             deadline = time.time() + TIMEOUT
-            while not all(w.done for w in self.workers):
+            while not all(w.done for w in self.workers if w.started):
                 if not self.cond.wait(1.0) and time.time() > deadline:
                     raise SchedTimeout("threads did not finish")
         for w in self.workers:
@@ -315,20 +316,21 @@ class Runner(object):
                 w.thread.join(TIMEOUT)
 
     # asyncio
-    async def a_worker(self, w):
-        await w.gate
+    async def a_worker(self, w, gate):
         try:
+            await gate
             await self.worker_coro(w)
         finally:
             w.done = True
             self.parked.set_result(None)
 
     def a_spawn(self, w, inherit):
+        w.started = True
         w.gate = self.loop.create_future()
         if inherit:
-            w.task = self.loop.create_task(self.a_worker(w))
+            w.task = self.loop.create_task(self.a_worker(w, w.gate))
         else:
-            w.task = self.loop.create_task(self.a_worker(w), context=contextvars.Context())
+            w.task = self.loop.create_task(self.a_worker(w, w.gate), context=contextvars.Context())
 
     async def a_main(self, w0):
         self.loop = asyncio.get_running_loop()
@@ -355,6 +357,7 @@ class Runner(object):
         if getattr(self, "_wrapped", None) is None:
             self._wrapped = eliot_friendly_generator_function(gen_original)
         w.gen = self._wrapped(w)
+        w.started = True
 
     def g_main(self, w0):
         self.g_make(w0)
@@ -484,7 +487,7 @@ class Runner(object):
             elif code == "late":
                 a, t = self.last_finished
                 self.late_tags.add(t)
-                a.log(message_type="late")
+                a.log(message_type="late", tag=self.new_tag(construct="late", parent=("tag", t)))
             else:
                 self.do_msg(w, code, op[1] if len(op) > 1 else [])
         for child in spawned:
@@ -697,6 +700,8 @@ class Runner(object):
             bad({"clause": "crash", "what": c.split(":")[1].strip() if c.count(":") > 1 else "driver"}, c)
         globals_ = build(self.sc.get("globals"))
         ok_msgs = []
+        if DEBUG:
+            DIGEST.update(repr([(lv, msg_kind(snap) if isinstance(snap, dict) else None) for _, snap, lv, _ in self.obs]).encode())
         # clause 1: shape of every message
         for idx, (ref, snap, lv, exp) in enumerate(self.obs):
             if not isinstance(snap, dict):
@@ -743,9 +748,15 @@ class Runner(object):
                 return identity.get(d[1])
             return d[2].get("id")
 
-        def place(d, u, container, what, idx, snap, lv):
+        def place(d, u, container, what, idx, snap, lv, relaxed=False):
+            # relaxed (eliot's own reports): either in the context the driver recorded, or in a fresh task of its own
             if container is None:
                 container = ("?",)
+            if relaxed:
+                if container == () and lv == (1,) and u not in uu_seen:
+                    return
+                if d is not None and d[0] == "remote" and resolve(d) is None:
+                    return   # nothing tagged seen yet inside that preserve_context() child: cannot tell, do not learn from a report
             sig = {"clause": "placement", "what": what, "mode": self.mode}
             where = "message #%d %s" % (idx, self.describe(snap, lv))
             if d is None:
@@ -764,10 +775,20 @@ class Runner(object):
                 bad(sig, "%s: the enclosing action (%s) never showed a usable start message" % (where, self.describe_desc(d)))
                 return
             # first message seen inside a preserve_context()-continued action: learn it and check against its origin
-            pid = resolve(d[1])
+            if not learn(d, u, container):
+                bad(sig, "%s: expected inside a %s, found inside %s@%s" % (where, self.describe_desc(d), u[:8], list(container)))
+
+        def learn(d, u, container):
             d[2]["id"] = (u, container)
-            if pid is None or u != pid[0] or container[:-1] != pid[1] or not container:
-                bad(sig, "%s: expected inside a remote child of %s, found inside %s@%s" % (where, self.describe_desc(d[1]), u[:8], list(container)))
+            p = d[1]
+            if not container or p is None:
+                return False
+            pid = resolve(p)
+            if pid is not None:
+                return pid == (u, container[:-1])
+            if p[0] == "tag":
+                return False
+            return learn(p, u, container[:-1])
 
         for idx, snap, u, lv, exp in ok_msgs:
             k = msg_kind(snap)
@@ -793,7 +814,10 @@ class Runner(object):
             elif k != "end":
                 if info is not None and info.get("construct") in MSG_OPS and info.get("parent") != exp:
                     bad({"clause": "crash", "what": "driver"}, "driver bug: context record differs for message #%d" % idx)
-                place(exp, u, lv[:-1], "report" if k == "report" else k, idx, snap, lv)
+                if info is not None and info.get("construct") == "late":
+                    exp = info["parent"]
+                own = k == "report" or (k == "tb" and snap.get("reason") != "for traceback") or snap.get("message_type") == "from_serializer"
+                place(exp, u, lv[:-1], "report" if own else k, idx, snap, lv, relaxed=own)
             uu_seen.add(u)
         for tag, info in self.tag_info.items():
             if info.get("started") and tag not in identity:
@@ -850,7 +874,7 @@ class Runner(object):
         if not isinstance(snap, dict):
             return repr(snap)[:40]
         s = snap.get("message_type") if "action_status" not in snap else "%s/%s" % (snap.get("action_type"), snap.get("action_status"))
-        return "[%s %s]" % (s, list(lv) if lv is not None else snap.get("task_level"))
+        return "[%s %r]" % (s, list(lv) if isinstance(lv, (list, tuple)) else (lv if lv is not None else snap.get("task_level")))
 
     def describe_desc(self, d):
         if d is None:
@@ -862,7 +886,9 @@ class Runner(object):
 
 SEEN_UUIDS = set()
 import os
-DEBUG = bool(os.environ.get("C02_DEBUG"))
+DEBUG = int(os.environ.get("C02_DEBUG") or 0)
+import hashlib
+DIGEST = hashlib.sha1()
 
 
 # ----------------------------------------------------------------------------------------------------
@@ -958,11 +984,11 @@ def rand_fields(rng, site):
     return [[rng.choice(keys), rng.choice(["i", "s", "l1", "l21", "n"])]]
 
 
-def rand_ops(rng, depth, mode, maxops):
+def rand_ops(rng, depth, mode, maxops, p_act=0.45):
     ops = []
     for _ in range(rng.randint(1, maxops)):
         r = rng.random()
-        if depth > 0 and r < 0.45:
+        if depth > 0 and r < p_act:
             kind = rng.choice(ACT_KINDS)
             o = {"k": kind, "x": rng.choice(EXITS) if rng.random() < 0.45 else "ok"}
             sf = rand_fields(rng, "log_call" if kind == "log_call" else "start")
@@ -971,12 +997,12 @@ def rand_ops(rng, depth, mode, maxops):
             uf = rand_fields(rng, "success")
             if uf:
                 o["uf"] = uf
-            ops.append(["act", o, rand_ops(rng, depth - 1, mode, maxops)])
-        elif depth > 0 and r < (0.62 if mode != "sync" else 0.52):
+            ops.append(["act", o, rand_ops(rng, depth - 1, mode, maxops, p_act)])
+        elif depth > 0 and r < p_act + (0.17 if mode != "sync" else 0.07):
             o = {"m": rng.choice(["bare", "preserve", "taskid", "taskid"]), "join": rng.random() < 0.5}
             if rng.random() < 0.5:
                 o["str"] = True
-            ops.append(["spawn", o, rand_ops(rng, depth - 1, mode, maxops)])
+            ops.append(["spawn", o, rand_ops(rng, depth - 1, mode, maxops, p_act)])
         else:
             code = rng.choice(MSG_OPS)
             ops.append([code, rand_fields(rng, "msg")] if code != "tb" else ["tb"])
@@ -1000,10 +1026,10 @@ def rand_dests(rng):
     return out
 
 
-def random_scenarios(rng, count, mode, depth, maxops):
+def random_scenarios(rng, count, mode, depth, maxops, p_act=0.45, family="random"):
     for _ in range(count):
-        sc = {"family": "random", "mode": mode, "sched": rng.randrange(1 << 30), "dests": rand_dests(rng),
-              "prog": rand_ops(rng, depth, mode, maxops)}
+        sc = {"family": family, "mode": mode, "sched": rng.randrange(1 << 30), "dests": rand_dests(rng),
+              "prog": rand_ops(rng, depth, mode, maxops, p_act)}
         if mode == "thread" and rng.random() < 0.7:
             sc["preempt"] = rng.choice([0.02, 0.05, 0.15])
         if rng.random() < 0.1:
@@ -1027,19 +1053,24 @@ def scenarios():
     yield from exhaustive_constructs()
     yield from exhaustive_collisions()
     depth = 3 if quick else 4
-    counts = {"sync": 2500, "thread": 500, "asyncio": 700, "gen": 700} if quick else {"sync": 60000, "thread": 9000, "asyncio": 14000, "gen": 14000}
+    counts = {"sync": 4000, "thread": 600, "asyncio": 1000, "gen": 1000} if quick else {"sync": 60000, "thread": 9000, "asyncio": 14000, "gen": 14000}
     for mode in ("sync", "thread", "asyncio", "gen"):
         yield from random_scenarios(rng, counts[mode], mode, depth, 3 if quick else 4)
+        yield from random_scenarios(rng, counts[mode] // 8, mode, 6 if quick else 8, 2, 0.7, "random_deep")
 
 
 def main():
     t0 = time.time()
     fails = []; known = []; cases = 0; seen = set(); fsigs = set(); ksigs = set()
     scs = [json.loads(args.scenario)] if args.scenario else scenarios()
-    per_family = {}
+    per_family = {}; per_time = {}
     for sc in scs:
+        t1 = time.time()
+        if cases:
+            per_time[last_key] = per_time.get(last_key, 0) + t1 - t_prev
+        t_prev = t1; last_key = (sc.get("family"), sc.get("mode"))
         cases += 1
-        if DEBUG:
+        if DEBUG == 2:
             err("case", cases, json.dumps(sc))
         per_family[(sc.get("family"), sc.get("mode"))] = per_family.get((sc.get("family"), sc.get("mode")), 0) + 1
         if nontrivial(sc):
@@ -1062,7 +1093,10 @@ def main():
                 continue
             sigs.add(key)
             lst.append({"signature": sig, "scenario": sc, "observed": [t[:300] for t in texts[:3]]})
-    err("c02: %d cases in %.1fs; per family/mode: %s; failing signatures: %d" % (cases, time.time() - t0, sorted(per_family.items(), key=str), len(fsigs)))
+    err("c02: %d cases in %.1fs; per family/mode: %s; seconds: %s; failing signatures: %d" % (cases, time.time() - t0, sorted(per_family.items(), key=str),
+        sorted((k, round(v, 1)) for k, v in per_time.items()), len(fsigs)))
+    if DEBUG:
+        err("digest of all observed (level, kind) streams:", DIGEST.hexdigest())
     depth = 3 if args.tier == "quick" else 4
     print(json.dumps({
         "cases": cases, "distinct": len(seen), "failures": fails, "known": known,
